@@ -125,7 +125,11 @@ def native_run(text, entry, inputs, timeout=30, san=True, env_extra=None):
     for ln in so.split('\n'):
         if ln.startswith('OUT '):
             p = ln.split(' ')
-            outs.append((p[1], list(bytes.fromhex(p[2])) if len(p) > 2 and p[2] else []))
+            hx = p[2] if len(p) > 2 else ''
+            hx = ''.join(ch for ch in hx if ch in '0123456789abcdefABCDEF')
+            if len(hx) % 2:
+                hx = hx[:-1]
+            outs.append((p[1], list(bytes.fromhex(hx)) if hx else []))
         elif ln.startswith('NOTE '):
             p = ln.split(' ')
             notes.append((p[1], int(p[2])))
@@ -164,6 +168,16 @@ def native_confirm(task, viol):
                 return True, 'native behaviour changes when only the stale field %s is changed to %d (rc %s -> %s)' % (
                     fld, alt, base['rc'], r2['rc'])
         return False, 'native behaviour independent of the stale field'
+    if task.opts.get('preempt_bound') and kind in ('memory', 'race', 'deadlock', 'assert', 'uncaught_exception', 'terminate'):
+        # schedule-dependent counterexample: stress replay with sleep-induced preemptions at mutex releases
+        last = ''
+        for seed in range(1, 41):
+            nr = native_run(task.text, task.entry, viol['inputs'], timeout=20, env_extra={'VP_CHAOS': str(seed * 7919)})
+            bad = nr['rc'] != 0 or not nr['done'] or nr['timeout'] or (kind == 'assert' and viol['msg'] in nr['asserts'])
+            last = 'rc=%s %s' % (nr['rc'], nr['stderr'][-500:].replace('\n', ' | '))
+            if bad:
+                return True, 'native stress replay (chaos seed %d) fails: %s' % (seed * 7919, last)
+        return False, 'native stress replay: 40 chaos schedules completed without failure (%s)' % last
     nr = native_run(task.text, task.entry, viol['inputs'], timeout=task.opts.get('native_timeout', 30))
     if kind in ('memory', 'uncaught_exception', 'terminate', 'trap', 'unreachable'):
         bad = nr['rc'] != 0 or not nr['done']
